@@ -22,20 +22,24 @@ kernel-checked with `decide +kernel`), the reported `d` is the true distance.
 FULL STATEMENT (not proved): for every class and every supported size (DESIGN.md §4),
 `IsDistance n H code.d`.  PROVED: the same for every supported size up to the table bound
 (2-D: L ≤ 6, 3-D: L ≤ 4, n ≤ 400) for which the untrusted search finds a certificate —
-everything except `Color666PlanarCode` L ≥ 3 and `Color666ToricCode` L ≥ 2 (6.6.6 colour codes
-have d² > n, so disjoint representatives cannot exist, and the enumeration below `d` is beyond
-the kernel).  `coverage_<Class>` pins how many instances of each table are certified, so a
-silently shrinking coverage breaks the build.  ALL SIZES (unbounded in L) are proved for seven
-hand-modelled codes: `Properties/C17Toric2DCode.lean` (`Lx, Ly ≥ 2`),
-`Properties/C17Planar2DCode.lean`, `Properties/C17RotatedPlanar2DCode.lean` (`Lx, Ly ≥ 1`):
-`IsDistance n H (min Lx Ly)`; `Properties/C17Toric3DCode.lean`, `Properties/C17XCubeCode.lean`
-(`Lx, Ly, Lz ≥ 2`): `IsDistance n H (min Lx (min Ly Lz))`; `Properties/C17Planar3DCode.lean`,
-`Properties/C17RotatedPlanar3DCode.lean` (`Lx, Ly, Lz ≥ 1`): `IsDistance n H (min Lx (Ly·Lz))` —
-and `code.d` equals that value for every lattice size, by packing with lattice translates; the
-same for every DEFORMED code of these classes, through the generic
-`distance_deformation_invariant` below (a per-qubit permutation of {X, Y, Z} changes neither the
-distance nor the reported distance of ANY code).  Missing for the full statement: the all-sizes
-statement for the other 9 classes.
+everything except `Color666PlanarCode` L ≥ 3 (the triangular 6.6.6 colour code has d² > n, so
+disjoint representatives cannot exist, and the enumeration below `d` is beyond the kernel; the
+periodic 6.6.6 code, n = 18L², d = 4L, has an exact packing: 3L translates of the listed zig-zag
+string and the L straight lines of the same colour).  `coverage_<Class>` pins how many instances
+of each table are certified, so a silently shrinking coverage breaks the build.  ALL SIZES
+(unbounded in L) are proved for ten hand-modelled codes: `Properties/C17Toric2DCode.lean`
+(`Lx, Ly ≥ 2`), `Properties/C17Planar2DCode.lean`, `Properties/C17RotatedPlanar2DCode.lean`
+(`Lx, Ly ≥ 1`): `IsDistance n H (min Lx Ly)`; `Properties/C17Toric3DCode.lean`,
+`Properties/C17XCubeCode.lean` (`Lx, Ly, Lz ≥ 2`): `IsDistance n H (min Lx (min Ly Lz))`;
+`Properties/C17Planar3DCode.lean`, `Properties/C17RotatedPlanar3DCode.lean` (`Lx, Ly, Lz ≥ 1`):
+`IsDistance n H (min Lx (Ly·Lz))`; `Properties/C17RhombicToricCode.lean` (all `L_i` even `≥ 2`):
+`IsDistance n H (min Lx (min Ly Lz))`; `Properties/C17RhombicPlanarCode.lean` (`Lx, Ly ≥ 2`,
+`Lz ≥ 1`): `IsDistance n H (min (Lx·Ly + (Lx−1)(Ly−1)) Lz)`; `Properties/C17Color488Code.lean`
+(`Lx = Ly = L ≥ 1`): `IsDistance (8L²) H (2L)` — and `code.d` equals that value for every lattice
+size, by packing with lattice translates; the same for every DEFORMED code of these classes,
+through the generic `distance_deformation_invariant` below (a per-qubit permutation of {X, Y, Z}
+changes neither the distance nor the reported distance of ANY code).  Missing for the full
+statement: the all-sizes statement for the other 6 classes.
 -/
 import PanqecVerif.Instances.DistAll
 import PanqecVerif.Proofs.Dist
@@ -220,7 +224,7 @@ theorem coverage_Color666PlanarCode :
     Generated.Color666PlanarCode.certified.length = 2 ∧ Generated.Color666PlanarCode.all.length = 6 := by
   decide +kernel
 theorem coverage_Color666ToricCode :
-    Generated.Color666ToricCode.certified.length = 1 ∧ Generated.Color666ToricCode.all.length = 4 := by
+    Generated.Color666ToricCode.certified.length = 4 ∧ Generated.Color666ToricCode.all.length = 4 := by
   decide +kernel
 theorem coverage_Color488Code :
     Generated.Color488Code.certified.length = 6 ∧ Generated.Color488Code.all.length = 6 := by
